@@ -144,7 +144,7 @@ func histWorker(req N) (resp N) {
 		return object.Nil
 	})
 	globals := map[string]any{"bump": bump, "poke": poke, "spin": spin, "boom": boom, "modfail": modfail, "modcancel": modcancel, "dpoke": dpoke}
-	gnames := []string{"bump", "poke", "spin", "boom", "modfail", "modcancel"}
+	gnames := []string{"bump", "poke", "spin", "boom", "modfail", "modcancel", "dpoke"}
 	cfg := risor.NewConfig()
 	for k := range cfg.Globals() {
 		gnames = append(gnames, k)
